@@ -169,6 +169,8 @@ pub mod p_stream__Push__push;
 pub mod p_stream__Push__push_to_vec;
 pub mod p_stream__Pull__pull;
 pub mod p_stream__Pull__pull_to_vec;
+pub mod p_HeapBytes__UnlockedNA__t_mlock;
+pub mod p_HeapByteArray32__UnlockedNA__t_mlock;
 
 const PROGS: &[(&str, fn())] = &[
     ("HeapBytes__LockedRW__read_as_slice", p_HeapBytes__LockedRW__read_as_slice::run as fn()),
@@ -341,6 +343,8 @@ const PROGS: &[(&str, fn())] = &[
     ("stream__Push__push_to_vec", p_stream__Push__push_to_vec::run as fn()),
     ("stream__Pull__pull", p_stream__Pull__pull::run as fn()),
     ("stream__Pull__pull_to_vec", p_stream__Pull__pull_to_vec::run as fn()),
+    ("HeapBytes__UnlockedNA__t_mlock", p_HeapBytes__UnlockedNA__t_mlock::run as fn()),
+    ("HeapByteArray32__UnlockedNA__t_mlock", p_HeapByteArray32__UnlockedNA__t_mlock::run as fn()),
 ];
 
 fn main() {
